@@ -246,14 +246,17 @@ def run(ctx):
     ctx.mc("DTimeoutMC", ctx.pick("DTimeoutMC.cfg", "DTimeoutMC.thorough.cfg"))
     ctx.require_actions("DTimeoutMC", ACTIONS)
     traces = []
-    # exhaustive-short: every history of exactly `depth` applicable ops, every configuration
-    depth = ctx.pick(3, 4)
+    # exhaustive-short: every history of exactly 3 applicable ops, every configuration; thorough adds every history of
+    # 4 ops over the alphabet with onTimeoutCancel kinds default / value only
     for cfg in all_cfgs():
-        kinds = OTC_KINDS if ctx.quick or cfg["src"] == "later" or not cfg["gate"] else ["default", "value", "other"]
-        ex = exhaustive(cfg, depth, kinds=kinds)
-        traces += ex
+        traces += exhaustive(cfg, 3)
     nexh = len(traces)
-    ctx.log("exhaustive histories of length %d over %d configurations: %d" % (depth, len(all_cfgs()), nexh))
+    ctx.log("exhaustive histories of length 3 over %d configurations: %d" % (len(all_cfgs()), nexh))
+    if not ctx.quick:
+        for cfg in all_cfgs():
+            traces += exhaustive(cfg, 4, kinds=["default", "value"])
+        ctx.log("exhaustive histories of length 4 (kinds default/value): %d" % (len(traces) - nexh))
+        nexh = len(traces)
     for _ in range(ctx.pick(3000, 40000)):
         cfg = random_cfg(ctx.rng)
         t = run_history(cfg, random_ops(ctx.rng, cfg, ctx.rng.randint(3, 16)))
@@ -261,9 +264,13 @@ def run(ctx):
             traces.append(t)
     ctx.extra["exhaustive_short_histories"] = nexh
     ctx.extra["random_histories"] = len(traces) - nexh
-    ctx.extra["timeouts_expired_observed"] = sum(1 for t in traces for e in t["ev"] for c in e["calls"][-1:] if e["e"] == "advance"
-                                                 and any(p[2] == "TimeoutError" for p in e["probes"]))
+    ctx.extra["timeouts_reported_observed"] = sum(1 for t in traces for e in t["ev"] if e["e"] == "advance"
+                                                  and any(p[2] == "TimeoutError" for p in e["probes"]))
     ctx.extra["user_cancels_observed"] = sum(1 for t in traces for e in t["ev"] if e["e"] == "cancel" and e["probes"])
+    ctx.extra["double_expiry_histories_observed"] = sum(1 for t in traces if t["cfg"]["src"] == "user" and t["ev"]
+                                                        and sum(1 for c in t["ev"][-1]["calls"] if c[1] == "fired") >= 2)
+    ctx.extra["paused_chain_timeouts_observed"] = sum(1 for t in traces if t["cfg"]["gate"] for e in t["ev"]
+                                                      if e["e"] == "advance" and e["probes"] and e["canc"] == 0 and t["cfg"]["canc"] != "none")
     ctx.extra["deferLater_f_runs_observed"] = sum(e["fr"] for t in traces for e in t["ev"])
     ctx.note_traces(traces)
     rej = ctx.validate("DTimeoutTrace", traces, shard_size=ctx.pick(6000, 12000))
